@@ -119,9 +119,41 @@ def rule_constructors(ctx):
     ctx.floor("primary constructors", n, 3)
 
 
+def _hag_by_evaluation(ctx):
+    """Decide has_ascii_graphemes on a complete small domain: every string of length <= 5 over {CR, LF, 'a', 'é'}
+    (all arrangements of lone / paired / repeated CR and LF, ASCII or not).  Returns None if the body cannot be
+    evaluated (loops, unknown callees), else a list of counterexamples."""
+    import itertools
+    from absint import Evaluator, Unknown
+    fn = get_fn(ctx.facts, M, HAG)
+    E = Evaluator(ctx.facts, M)
+    bad = []
+    n = 0
+    try:
+        for ln in range(0, 6):
+            for tup in itertools.product("\r\na\u00e9", repeat=ln):
+                txt = "".join(tup)
+                got = E.call(fn, [("str", txt)])
+                n += 1
+                want = int(all(ord(c) < 128 for c in txt) and "\r\n" not in txt)
+                if got != want:
+                    bad.append(txt)
+    except (Unknown, Inconclusive, RecursionError):
+        return None, 0
+    return bad, n
+
+
 def rule_ascii_predicate(ctx):
     facts = ctx.facts
     fn = get_fn(facts, M, HAG)
+    bad, n_eval = _hag_by_evaluation(ctx)
+    if bad is not None:
+        if bad:
+            ctx.violation(HAG + "|shape|1", site(fn, 0), "has_ascii_graphemes answers wrongly for %d of the %d strings of length <= 5 over {CR, LF, a, \u00e9}, e.g. %r: "
+                          "an ASCII string with a CR LF pair is stored as bytes (one character too many) or a CR-free one as code points" % (len(bad), n_eval, bad[0]))
+        else:
+            ctx.ok(site(fn, 0), "has_ascii_graphemes(s) = s.is_ascii() && no \"\\r\\n\" in s  (evaluated on all %d strings of length <= 5 over {CR, LF, a, \u00e9})" % n_eval)
+        return
     ia = [(bi, t) for bi, t in fn.calls(lambda t: callee(t).endswith("str>::is_ascii") or callee(t).endswith("::is_ascii"))]
     mm = [(bi, t) for bi, t in fn.calls(lambda t: callee(t).endswith("memmem::find"))]
     problems = []
@@ -284,7 +316,24 @@ def rule_accessors(ctx):
 
         def bound_call(x):
             """start_bound()/end_bound() call behind clones/refs -> 'S' / 'E'"""
-            while isinstance(x, tuple) and x and (x[0] in ("ref", "deref", "cast") or (x[0] == "call" and str(x[1]).rsplit("::", 1)[-1] in ("cloned", "copied"))):
+            def transparent(c):
+                """cloned / copied, or Bound::map with a closure that only dereferences / widens its argument"""
+                short = str(c[1]).rsplit("::", 1)[-1]
+                if short in ("cloned", "copied", "as_ref"):
+                    return True
+                if short == "map" and "Bound" in str(c[1]) and len(c[2]) == 2 and c[2][1][0] == "closure":
+                    cf = get_fn(facts, M, c[2][1][1])
+                    try:
+                        ps_ = decision_paths(cf)
+                    except Inconclusive:
+                        return False
+                    if len(ps_) == 1 and not ps_[0][0] and ps_[0][1] is not None:
+                        v = strip_casts(ps_[0][1])
+                        while v[0] in ("ref", "deref", "cast"):
+                            v = strip_casts(v[2] if v[0] == "cast" else v[1])
+                        return v[0] == "arg" and v[1] == 2
+                return False
+            while isinstance(x, tuple) and x and (x[0] in ("ref", "deref", "cast") or (x[0] == "call" and transparent(x))):
                 x = x[2] if x[0] == "cast" else (x[2][0] if x[0] == "call" else x[1])
             if isinstance(x, tuple) and x and x[0] == "call":
                 nm = str(x[3] or x[1])
@@ -369,6 +418,29 @@ def rule_accessors(ctx):
                 problems.append("start bound variant %d is translated to %s, expected %s" % (k["S"], st, want_s))
             if en != want_e:
                 problems.append("end bound variant %d is translated to %s, expected %s" % (k["E"], en, want_e))
+        if not seen and not problems:
+            # whole-sale delegation: the range (or the pair of its two bounds, each passed through a transparent
+            # conversion) is handed to a sibling of the family on every path; the sibling's table is checked itself
+            deleg_all = bool(paths)
+            for conds, res in paths:
+                if res is None:
+                    continue
+                r0 = res
+                while r0[0] in ("ref", "deref", "cast"):
+                    r0 = r0[2] if r0[0] == "cast" else r0[1]
+                okd = False
+                if r0[0] == "call" and str(r0[1]).rsplit("::", 1)[-1] in ("slice", "slice_u32") and "utf32_str::" in str(r0[1]) and str(r0[1]) != name and len(r0[2]) >= 2:
+                    tp = r0[2][1]
+                    while tp[0] in ("ref", "deref"):
+                        tp = tp[1]
+                    if tp[0] == "arg":
+                        okd = True
+                    elif tp[0] == "tuple" and len(tp[1]) == 2 and bound_call(tp[1][0]) == "S" and bound_call(tp[1][1]) == "E":
+                        okd = True
+                if not okd:
+                    deleg_all = False
+            if deleg_all:
+                continue
         if len(seen) != 9 and not problems:
             problems.append("only %d of the 9 (start, end) bound combinations are handled" % len(seen))
         if problems:
